@@ -1366,18 +1366,283 @@ Definition stat_close (tol : Q) (a b : @stat_result Q) : bool :=
         ctx.mismatch("C12.Model.stationary_distributions / partition vs LinearStateSpace.stationary_distributions", meta[i][0], meta[i][1])
 
 
+# ------------------------------------------------------------------ hardening audit: dress / sequences / non-mutation / optional arguments
+def _dress_array(M, how, rng):
+    """M: list of rows of ints or quarter multiples; returns the same data as another container / dtype / memory layout"""
+    base = np.array([[float(v) for v in r] for r in M], dtype=float).reshape(len(M), len(M[0]) if M else 0)
+    if how == "list":
+        return base.tolist()
+    if how == "tuple":
+        return tuple(tuple(r) for r in base.tolist())
+    if how in ("int64", "int32"):
+        return base.astype(how)
+    if how == "float32":
+        return base.astype(np.float32)
+    if how == "F_order":
+        return np.asfortranarray(base)
+    if how == "view":                      # non-contiguous window of a larger array
+        big = np.full((base.shape[0] * 2 + 3, base.shape[1] * 2 + 3), 99.0)
+        big[1:1 + 2 * base.shape[0]:2, 2:2 + 2 * base.shape[1]:2] = base
+        return big[1:1 + 2 * base.shape[0]:2, 2:2 + 2 * base.shape[1]:2]
+    return base
+
+
+SCALAR_DRESS = {"pyint": int, "np.int64": np.int64, "np.int32": np.int32, "np.intp": np.intp, "np.uint8": np.uint8}
+
+
+def _flat(res):
+    if isinstance(res, (list, tuple)):
+        return [z for r in res for z in _flat(r)]
+    return [np.asarray(res, dtype=float)]
+
+
+def _same(a, b):
+    fa, fb = _flat(a), _flat(b)
+    return len(fa) == len(fb) and all(x.shape == y.shape and np.allclose(x, y, rtol=1e-12, atol=1e-12) for x, y in zip(fa, fb))
+
+
+def _omit(v):
+    return isinstance(v, str) and v == "omit"
+
+
+def _evaluate(ctx, args, what, watch=True):
+    """construct LinearStateSpace + Kalman from (possibly dressed) arguments and call every public entry point once;
+    returns dict entry -> result, or None after reporting an exception (exception on a valid input = oracle failure)"""
+    from quantecon import LinearStateSpace, Kalman
+    a = args
+    arrays = {k_: v for k_, v in a.items() if isinstance(v, np.ndarray)}
+    arrays.update({"ys[%d]" % i: y for i, y in enumerate(a["ys"]) if isinstance(y, np.ndarray)})
+    snap = {k_: (v, v.copy(), v.dtype, v.shape) for k_, v in arrays.items()}
+    out = {}
+    try:
+        with warnings.catch_warnings():
+            warnings.simplefilter("ignore")
+            kw = {}
+            if not _omit(a["H"]):
+                kw["H"] = a["H"]
+            if not _omit(a["mu0"]):
+                kw["mu_0"] = a["mu0"]
+            if not _omit(a["S0"]):
+                kw["Sigma_0"] = a["S0"]
+            ss = LinearStateSpace(a["A"], a["C"], a["G"], **kw)
+            g1 = ss.moment_sequence()
+            t0, t1 = next(g1), next(g1)
+            g2 = ss.moment_sequence()          # a second generator started while the first is half consumed
+            r0 = next(g2)
+            t2 = next(g1)
+            out["moment_sequence"] = [t0, t1, t2]
+            out["moment_sequence_restarted"] = [r0, next(g2)]
+            out["impulse_response"] = ss.impulse_response(a["j"]) if not _omit(a["j"]) else ss.impulse_response()
+            out["geometric_sums"] = ss.geometric_sums(a["beta"], a["xt"])
+            out["simulate"] = ss.simulate(a["ts"], random_state=a["seed"]) if not _omit(a["ts"]) else ss.simulate(random_state=a["seed"])
+            if _omit(a["T"]):
+                out["replicate"] = ss.replicate(random_state=a["seed"])
+            else:
+                out["replicate"] = ss.replicate(a["T"], a["reps"], random_state=a["seed"])
+            s1 = ss.stationary_distributions()
+            s1 = [np.array(z, copy=True) for z in s1]
+            out["stationary_distributions"] = s1
+            out["stationary_distributions_again"] = ss.stationary_distributions()
+            out["moment_sequence_after"] = next(ss.moment_sequence())
+            if not _omit(a["H"]) and a["H"] is not None and a.get("kalman", True):
+                kn = Kalman(ss, a["xh"], a["Sg"]) if not _omit(a["xh"]) else Kalman(ss)
+                states = []
+                for y in a["ys"]:
+                    kn.update(y)
+                    states.append((np.array(kn.x_hat, dtype=float), np.array(kn.Sigma, dtype=float)))
+                out["kalman_update"] = states
+                out["stationary_values"] = kn.stationary_values()
+                out["lazy"] = (kn.Sigma_infinity, kn.K_infinity, kn.stationary_innovation_covar())
+                out["stationary_coefficients"] = kn.stationary_coefficients(a["j"] if not _omit(a["j"]) else 5, "ma") + kn.stationary_coefficients(2, coeff_type="var")
+                kn.set_state(None if _omit(a["xh"]) else a["xh"], None if _omit(a["xh"]) else a["Sg"])      # re-assign the prior, filter again
+                for y in a["ys"]:
+                    kn.prior_to_filtered(y); kn.filtered_to_forecast()
+                out["kalman_after_set_state"] = (np.array(kn.x_hat, dtype=float), np.array(kn.Sigma, dtype=float))
+    except Exception as e:
+        ctx.fail("c12_exception", "%s: %s raised on a valid input: %s" % (what, type(e).__name__, str(e)[:200]), {"dress": what, "args": jsonable({k_: (v.tolist() if isinstance(v, np.ndarray) else v) for k_, v in a.items() if k_ != "seed"})}, None, None)
+        return None
+    if watch:
+        for name, (arr, copy, dt, shp) in snap.items():
+            if arr.dtype != dt or arr.shape != shp or not np.array_equal(arr, copy):
+                ctx.fail("lss_mutates_input", "argument %s was modified (%s)" % (name, what), {"dress": what, "argument": name}, arr.tolist(), copy.tolist())
+    return out
+
+
+def dress_checks(ctx, N):
+    """Every public entry point of LinearStateSpace / Kalman with its arguments in other containers, dtypes, layouts and
+    NumPy scalar types, optional arguments omitted / explicit / falsy-but-valid, scalar (n = k = 1) models, H = None vs zeros,
+    numpy-int horizons and seeds: results must equal the canonical float64 / Python-int call; no argument is modified;
+    no exception on a valid input; documented ValueErrors are raised."""
+    from quantecon import LinearStateSpace, Kalman
+    rng = ctx.rng
+    for ci in range(N):
+        quarter = ci % 2 == 1
+        scalar_model = ci % 3 == 2
+        n = 1 if scalar_model else rng.choice([2, 3])
+        m = 1 if scalar_model else rng.choice([1, 2])
+        k = 1 if scalar_model else rng.choice([1, 2])
+        den = 4 if quarter else 1
+        # strictly lower triangular A (plus, for quarter data, a stable diagonal): I - A and the Lyapunov system are non-singular
+        A = [[Fraction(rng.randint(-2, 2), den) if j < i else Fraction(0) for j in range(n)] for i in range(n)]
+        if quarter:
+            for i in range(n):
+                A[i][i] = Fraction(rng.randint(-2, 2), 4)
+        C = rmat(rng, n, m, -2, 2, den)
+        G = gen_G(rng, k, n) if quarter else [[Fraction(rng.choice([-2, -1, 1, 2])) for _ in range(n)] for _ in range(k)]
+        H = [[(Fraction(rng.choice([1, 2]), 1) if i == j else Fraction(rng.randint(-1, 1), den) if j < i else Fraction(0)) for j in range(k)] for i in range(k)]
+        mu0 = rmat(rng, n, 1, -3, 3, den)
+        B = rmat(rng, n, n, -2, 2, den if quarter else 1)
+        S0 = mm(B, mt(B))
+        ys = [rmat(rng, k, 1, -4, 4, den) for _ in range(2)]
+        xt = rmat(rng, n, 1, -3, 3, den)
+        seed = rng.randrange(0, 200)
+        canon = dict(A=npm(A), C=npm(C), G=npm(G), H=npm(H), mu0=npm(mu0), S0=npm(S0), xh=npm(mu0), Sg=npm(S0),
+                     ys=[npm(y) for y in ys], xt=npm(xt), j=3, beta=0.5, ts=4, T=2, reps=3, seed=seed)
+        ref = _evaluate(ctx, canon, "canonical float64")
+        ctx.case(("dress", ci, str(fl(A)), seed), nontrivial=(n >= 2))
+        ctx.count("dress:base=" + ("quarters" if quarter else "integers") + (",scalar_model" if scalar_model else ""))
+        if ref is None:
+            continue
+        info = {"A": fl(A), "C": fl(C), "G": fl(G), "H": fl(H), "mu0": fl(mu0), "S0": fl(S0), "ys": [fl(y) for y in ys], "x_t": fl(xt), "seed": seed}
+
+        def compare(what, args, keys=None, against=None):
+            ctx.count("dress:" + what)
+            res = _evaluate(ctx, args, what)
+            if res is None:
+                return None
+            tgt = against or ref
+            for key in (keys or tgt.keys()):
+                if key in tgt and (key not in res or not _same(res[key], tgt[key])):
+                    ctx.fail("c12_dress", "%s differs from the canonical float64 / Python-int call when arguments are given as %s" % (key, what),
+                             dict(info, dress=what, entry=key), [z.tolist() for z in _flat(res.get(key, []))][:6], [z.tolist() for z in _flat(tgt[key])][:6])
+                    break
+            return res
+        # ---- canonical oracle (cheap closed forms): restart of the generator, repeated stationary_distributions, first moments
+        if not _same(ref["moment_sequence_restarted"], ref["moment_sequence"][:2]) or not _same(ref["moment_sequence_after"], ref["moment_sequence"][0]):
+            ctx.fail("lss_moment_restart", "a restarted moment_sequence generator does not start again from (mu_0, Sigma_0)", info, None, None)
+        ctx.count("seq:moment_sequence_restarted")
+        if not _same(ref["stationary_distributions_again"], ref["stationary_distributions"]):
+            ctx.fail("lss_stationary_repeat", "a second stationary_distributions() call returns different moments", info, None, None)
+        ctx.count("seq:stationary_distributions_twice")
+        ex_m = [mm(mpow(A, t_), mu0) for t_ in range(3)]
+        if not all(mabs(ref["moment_sequence"][t_][0], ex_m[t_], Fraction(1, 10**12) * (1 + ninf(ex_m[t_]))) for t_ in range(3)):
+            ctx.fail("lss_moments", "moment_sequence means are not A^t mu_0", info, None, fl(ex_m[2]))
+        # ---- class 1: containers / dtypes / layouts of every array argument
+        hows = ["list", "tuple", "float32", "F_order", "view"] + ([] if quarter else ["int64", "int32"])
+        for how in hows:
+            args = dict(canon)
+            for key in ("A", "C", "G", "H", "mu0", "S0", "xh", "Sg", "xt"):
+                args[key] = _dress_array(locals()[{"xh": "mu0", "Sg": "S0"}.get(key, key)] if key not in ("xt",) else xt, how, rng)
+            args["ys"] = [_dress_array(y, how, rng) for y in ys]
+            compare("arrays:" + how, args)
+        # 1-d forms: mu_0, x_hat, x_t, y as flat vectors / lists
+        args = dict(canon, mu0=[float(v[0]) for v in mu0], xh=np.array([float(v[0]) for v in mu0]), ys=[[float(v[0]) for v in y] for y in ys])
+        compare("arrays:1d_vectors", args, keys=[k_ for k_ in ref if k_ != "geometric_sums"])
+        if n == 1:      # scalar model: every argument a Python / NumPy scalar; C as a 1-d list
+            for nm, cast in [("pyfloat", float), ("np.float64", np.float64), ("np.float32", np.float32)] + ([] if quarter else [("pyint", int), ("np.int64", np.int64), ("np.int32", np.int32)]):
+                sc = lambda M: cast(float(M[0][0]))
+                args = dict(canon, A=sc(A), C=[float(v) for v in C[0]] if nm == "pyfloat" else (sc(C) if m == 1 else npm(C)), G=sc(G), H=sc(H), mu0=sc(mu0), S0=sc(S0),
+                            xh=sc(mu0), Sg=sc(S0), ys=[sc(y) for y in ys], xt=sc(xt))
+                compare("scalars:" + nm, args, keys=[k_ for k_ in ref if k_ != "geometric_sums"])
+        # ---- integer-like arguments (ts_length, T, num_reps, j) and seeds as NumPy ints; beta as float types
+        for nm, cast in SCALAR_DRESS.items():
+            if nm != "pyint":
+                compare("ints:" + nm, dict(canon, j=cast(3), ts=cast(4), T=cast(2), reps=cast(3)))
+                compare("seed:" + nm, dict(canon, seed=cast(seed)))
+        compare("seed:RandomState_instance", dict(canon, seed=np.random.RandomState(seed)), keys=["simulate"])
+        for nm, cast in [("np.float64", np.float64), ("np.float32", np.float32)]:
+            compare("beta:" + nm, dict(canon, beta=cast(0.5)), keys=["geometric_sums"])
+        # ---- optional arguments: omitted vs explicit default vs falsy-but-valid
+        zero_ref = _evaluate(ctx, dict(canon, mu0=np.zeros((n, 1)), S0=np.zeros((n, n))), "explicit zero mu_0/Sigma_0")
+        if zero_ref is not None:
+            compare("optional:mu_0,Sigma_0 omitted", dict(canon, mu0="omit", S0="omit"), against=zero_ref,
+                    keys=["moment_sequence", "simulate", "replicate", "stationary_distributions"])
+            compare("optional:mu_0,Sigma_0=None", dict(canon, mu0=None, S0=None), against=zero_ref,
+                    keys=["moment_sequence", "simulate", "replicate", "stationary_distributions"])
+            if n == 1:
+                compare("optional:falsy mu_0=0,Sigma_0=0.0", dict(canon, mu0=0, S0=0.0), against=zero_ref,
+                        keys=["moment_sequence", "simulate", "replicate", "stationary_distributions"])
+        kz_ref = _evaluate(ctx, dict(canon, xh=np.zeros((n, 1)), Sg=np.zeros((n, n))), "explicit zero prior")
+        if kz_ref is not None and n == 1:
+            compare("optional:falsy x_hat=0,Sigma=0.0", dict(canon, xh=0, Sg=0.0), against=kz_ref, keys=["kalman_update", "kalman_after_set_state"])
+        kd_ref = _evaluate(ctx, dict(canon, xh=np.zeros((n, 1)), Sg=np.eye(n)), "explicit default prior")
+        if kd_ref is not None:
+            compare("optional:x_hat,Sigma omitted", dict(canon, xh="omit", Sg="omit"), against=kd_ref, keys=["kalman_update", "kalman_after_set_state"])
+        noH_ref = _evaluate(ctx, dict(canon, H=npm(zeros(k, k)), kalman=False), "H = zeros")
+        if noH_ref is not None:
+            compare("optional:H=None vs zeros", dict(canon, H=None), against=noH_ref,
+                    keys=["moment_sequence", "impulse_response", "geometric_sums", "stationary_distributions"])
+            compare("optional:H omitted vs zeros", dict(canon, H="omit"), against=noH_ref,
+                    keys=["moment_sequence", "impulse_response", "geometric_sums", "stationary_distributions"])
+        d5 = _evaluate(ctx, dict(canon, j=5, ts=100, T=10, reps=100), "explicit defaults j=5, ts_length=100, T=10, num_reps=100")
+        if d5 is not None:
+            compare("optional:j,ts_length,T,num_reps omitted", dict(canon, j="omit", ts="omit", T="omit"), against=d5,
+                    keys=["impulse_response", "simulate", "replicate"])
+        compare("optional:seed=0 (falsy)", dict(canon, seed=0), against=_evaluate(ctx, dict(canon, seed=np.random.RandomState(0)), "RandomState(0)"), keys=["simulate"])
+        # ---- degenerate sizes: one period, T = 0 / 1, one repetition, j = 0, beta = 0
+        for nm, over in [("ts_length=1", dict(ts=1)), ("T=1,num_reps=1", dict(T=1, reps=1)), ("T=0", dict(T=0)), ("j=0", dict(j=0)), ("beta=0(int)", dict(beta=0))]:
+            ctx.count("degenerate:" + nm)
+            res = _evaluate(ctx, dict(canon, **over), nm)
+            if res is None:
+                continue
+            x, y = res["simulate"]
+            xr, yr = res["replicate"]
+            T_, reps_ = over.get("T", 2), over.get("reps", 3)
+            bad = None
+            if nm == "ts_length=1" and (x.shape != (n, 1) or y.shape != (k, 1)):
+                bad = "simulate(ts_length=1) shapes"
+            if xr.shape != (n, reps_) or yr.shape != (k, reps_):
+                bad = "replicate shapes"
+            if nm == "j=0" and (len(res["impulse_response"][0]) != 1 or not _same(res["impulse_response"][0][0], npm(C))):
+                bad = "impulse_response(0) is not ([C], [G C])"
+            if nm.startswith("beta=0") and not _same(res["geometric_sums"][0], npm(xt)):
+                bad = "geometric_sums(0, x_t) is not x_t"
+            if bad:
+                ctx.fail("c12_degenerate", bad, dict(info, case=nm), None, None)
+        # replicate(T): column j is x_T of a path of length T+1 driven by the same stream (Generator and RandomState seeds)
+        for nm, mk in [("RandomState", lambda: np.random.RandomState(seed)), ("Generator", lambda: np.random.default_rng(seed))]:
+            ctx.count("seed:" + nm + "_replayed")
+            try:
+                ss = LinearStateSpace(npm(A), npm(C), npm(G), npm(H), mu_0=npm(mu0), Sigma_0=npm(S0))
+                x, y = ss.simulate(5, random_state=mk())
+                r2 = mk()
+                x0 = r2.multivariate_normal(npm(mu0).flatten(), npm(S0))
+                w = r2.standard_normal((m, 4)); v2 = r2.standard_normal((k, 5))
+            except Exception as e:
+                ctx.fail("c12_exception", "simulate with a %s raised %s" % (nm, type(e).__name__), dict(info, random_state=nm), None, None)
+                continue
+            dd = dict(n=n, m=m, k=k, l=k, A=A, C=C, G=G, H=H)
+            oracle_path(ctx, dd, True, x, y, x0.tolist(), w.tolist(), v2.tolist(), dict(info, random_state=nm), Fraction(1, 10**9) * (1 + Fraction(float(np.max(np.abs(x))))),
+                        "lss_simulate_dynamics", Fraction(1, 10**9) * (1 + Fraction(float(np.max(np.abs(y))))))
+        # ---- class 6: documented ValueErrors
+        for nm, f in [("non-square A", lambda: LinearStateSpace(np.ones((2, 3)), np.ones((2, 1)), np.ones((1, 2)))),
+                      ("C rows != n", lambda: LinearStateSpace(np.eye(2), np.ones((3, 1)), np.ones((1, 2)))),
+                      ("G columns != n", lambda: LinearStateSpace(np.eye(2), np.ones((2, 1)), np.ones((1, 3)))),
+                      ("1-d C for n>1", lambda: LinearStateSpace(np.eye(2), [1.0, 2.0], np.ones((1, 2)))),
+                      ("unknown coeff_type", lambda: Kalman(LinearStateSpace(npm(A), npm(C), npm(G), npm(H))).stationary_coefficients(2, "arma"))]:
+            ctx.count("error:" + nm)
+            try:
+                f()
+                ctx.fail("c12_error_expected", "no ValueError for " + nm, {"case": nm}, "returned", "ValueError")
+            except ValueError:
+                pass
+            except Exception as e:
+                ctx.fail("c12_error_expected", "%s instead of ValueError for %s" % (type(e).__name__, nm), {"case": nm}, type(e).__name__, "ValueError")
+
+
 def run(ctx):
     thorough = ctx.tier == "thorough"
     ctx.proofs(["C12/Props.v", "C12/PropsTie.v"])
     np.seterr(all="ignore")
-    kalman_checks(ctx, 500 if thorough else 120, 12000 if thorough else 3000)
-    ops_checks(ctx, 300 if thorough else 60, 12000 if thorough else 3000)
+    kalman_checks(ctx, 500 if thorough else 80, 12000 if thorough else 2000)
+    ops_checks(ctx, 300 if thorough else 45, 12000 if thorough else 3000)
     stationary_checks(ctx, 120 if thorough else 24)
-    multi_object_checks(ctx, 80 if thorough else 16)
+    multi_object_checks(ctx, 80 if thorough else 10)
     lss_checks(ctx, 400 if thorough else 64)
     sim_checks(ctx, 300 if thorough else 48)
     kernel_checks(ctx, 400 if thorough else 80)
     stationary_dist_checks(ctx, 240 if thorough else 40)
+    dress_checks(ctx, 36 if thorough else 6)
 
 
 def replay(data):
